@@ -111,15 +111,14 @@ pub fn run(opts: &Opts, rep: &Report) {
         _ => unreachable!(),
     };
     let budget = Budget::new(opts.budget_s);
-    let threads = std::thread::available_parallelism().map(|n| n.get()).unwrap_or(8);
+    let threads = crate::common::n_threads();
     // systems: bit-vector members, oracle to a fixpoint
     let mut specs: Vec<(SysSpec, bool, u64)> = vec![];
     let (mut n_safe, mut n_unsafe, mut deep) = (0u64, 0u64, 0u64);
-    for spec in family(tier, opts.seed) {
-        if spec.has_arrays() || spec.bads.is_empty() || spec.state_bits() > 10 {
-            continue;
-        }
-        let r = oracle(&spec, None, false);
+    use rayon::prelude::*;
+    let fam: Vec<SysSpec> = family(tier, opts.seed).into_iter().filter(|spec| !(spec.has_arrays() || spec.bads.is_empty() || spec.state_bits() > 10)).collect();
+    let reaches: Vec<pvcore::tsref::Reach> = fam.par_iter().map(|spec| oracle(spec, None, false)).collect();
+    for (spec, r) in fam.into_iter().zip(reaches.into_iter()) {
         rep.add("states", r.states);
         rep.add("transitions", r.transitions);
         let safe = r.shortest.is_none();
